@@ -44,9 +44,17 @@ func fmf() myF { return 0 }
 
 type wr struct {
 	err error
-	buf []int
-	g   myF
+	buf   []int
+	g     myF
+	avail int
 }
+
+// conjuncts that return true and change what a neighbouring comparison reads
+func (w *wr) refill() bool { w.avail = 9; return true }
+
+var gn int
+
+func bumpG() bool { gn = 9; return true }
 
 func (w *wr) flush() { w.err = myErr{}; w.buf = []int{1} }
 func (w *wr) peek() int { return len(w.buf) }
